@@ -22,7 +22,7 @@ from __future__ import annotations
 import threading
 from typing import Any, Callable
 
-WATCHDOG_S = 10.0
+WATCHDOG_S = 60.0
 
 
 class HarnessError(Exception):
@@ -103,7 +103,7 @@ class Scheduler:
         w.parked_at = label
         w.go.clear()
         self.parked.set()
-        if not w.go.wait(WATCHDOG_S * 30):
+        if not w.go.wait(WATCHDOG_S * 10):
             raise HarnessError("worker abandoned")
 
     def clock(self) -> float:
